@@ -251,43 +251,62 @@ func evaluate(k Case) (out []finding) {
 		}
 	}
 	// optimality
-	if affineOf(k.Aligner) {
-		unres, BU, DU := affineOpt(r, q, k.M, k.Open, md, true)
-		res, BR, DR := affineOpt(r, q, k.M, k.Open, md, false)
-		unresD, resD := unres, res
-		if md == fitted {
-			unres, res = BU[a1][len(q)], BR[a1][len(q)]
-			// best alignments ending at the same reference position in an aligned pair
-			unresD, resD = DU[a1][len(q)], DR[a1][len(q)]
-		}
-		switch {
-		case total == unres:
-		case total > unres:
-			add("C08", "reference-bug", "path score %d exceeds the reference optimum %d", total, unres)
-		case md == fitted && total == unresD:
-			add("C08", "ends-on-aligned-pair-only", "%q vs %q: returned alignment scores %d = optimum among alignments ending in an aligned pair at reference position %d; an alignment ending in a gap there reaches %d (pairs %v)", k.R, k.Q, total, a1, unres, segs)
-		case total == res || (md == fitted && total == resD):
-			add("C08", "affine-no-gap-to-gap-transition", "%q vs %q: returned alignment scores %d = optimum of the model without insertion<->deletion transitions; adjacent opposite gaps reach %d (pairs %v)", k.R, k.Q, total, unres, segs)
-		case total < res && !(md == fitted && total > resD):
-			add("C08", "affine-below-restricted-optimum", "%q vs %q: returned alignment scores %d (reported %d), optimum %d (restricted model %d) (pairs %v)", k.R, k.Q, total, sum, unres, res, segs)
-		default:
-			add("C08", "affine-between", "%q vs %q: returned alignment scores %d, restricted optimum %d, optimum %d (pairs %v)", k.R, k.Q, total, res, unres, segs)
-		}
-	} else {
-		opt, T := linearOpt(r, q, k.M, md)
-		if md == fitted {
-			opt = T[a1][len(q)]
-		}
-		if total != opt {
-			add("C08", "not-optimal", "%q vs %q: returned alignment scores %d (reported %d), optimum %d (pairs %v)", k.R, k.Q, total, sum, opt, segs)
+	optimal := func(segs []seg, total, sum, a1 int, tag string) {
+		add := func(prop, class, f string, a ...interface{}) { add(prop, class+tag, f, a...) }
+		if affineOf(k.Aligner) {
+			unres, BU, DU := affineOpt(r, q, k.M, k.Open, md, true)
+			res, BR, DR := affineOpt(r, q, k.M, k.Open, md, false)
+			unresD, resD := unres, res
+			if md == fitted {
+				unres, res = BU[a1][len(q)], BR[a1][len(q)]
+				// best alignments ending at the same reference position in an aligned pair
+				unresD, resD = DU[a1][len(q)], DR[a1][len(q)]
+			}
+			switch {
+			case total == unres:
+			case total > unres:
+				add("C08", "reference-bug", "path score %d exceeds the reference optimum %d", total, unres)
+			case md == fitted && total == unresD:
+				add("C08", "ends-on-aligned-pair-only", "%q vs %q: returned alignment scores %d = optimum among alignments ending in an aligned pair at reference position %d; an alignment ending in a gap there reaches %d (pairs %v)", k.R, k.Q, total, a1, unres, segs)
+			case total == res || (md == fitted && total == resD):
+				add("C08", "affine-no-gap-to-gap-transition", "%q vs %q: returned alignment scores %d = optimum of the model without insertion<->deletion transitions; adjacent opposite gaps reach %d (pairs %v)", k.R, k.Q, total, unres, segs)
+			case total < res && !(md == fitted && total > resD):
+				add("C08", "affine-below-restricted-optimum", "%q vs %q: returned alignment scores %d (reported %d), optimum %d (restricted model %d) (pairs %v)", k.R, k.Q, total, sum, unres, res, segs)
+			default:
+				add("C08", "affine-between", "%q vs %q: returned alignment scores %d, restricted optimum %d, optimum %d (pairs %v)", k.R, k.Q, total, res, unres, segs)
+			}
+		} else {
+			opt, T := linearOpt(r, q, k.M, md)
+			if md == fitted {
+				opt = T[a1][len(q)]
+			}
+			if total != opt {
+				add("C08", "not-optimal", "%q vs %q: returned alignment scores %d (reported %d), optimum %d (pairs %v)", k.R, k.Q, total, sum, opt, segs)
+			}
 		}
 	}
+	optimal(segs, total, sum, a1, "")
 	// quality letters give the same pairs
 	qps, err := al.Align(seqOf(k.Letters, k.R, true), seqOf(k.Letters, k.Q, true))
 	if err != nil {
 		add("C09", "qletters-error", "quality-letter variant: %v", err)
-	} else if fmt.Sprint(segments(qps)) != fmt.Sprint(segs) {
-		add("C09", "letters-vs-qletters", "plain letters give %v, quality letters give %v", segs, segments(qps))
+	} else if qsegs := segments(qps); fmt.Sprint(qsegs) != fmt.Sprint(segs) {
+		add("C09", "letters-vs-qletters", "plain letters give %v, quality letters give %v", segs, qsegs)
+		// the quality-letter result is then judged for optimality on its own
+		if qt, _, _, bad := pathScore(k, qsegs, r, q); bad == "" && len(qsegs) > 0 {
+			qsum := 0
+			for _, x := range qsegs {
+				qsum += x.score
+			}
+			qa1, qb0, qb1 := qsegs[len(qsegs)-1].a1, qsegs[0].b0, qsegs[len(qsegs)-1].b1
+			if md == fitted && (qb0 != 0 || qb1 != len(q)) {
+				add("C08", "fitted-query-not-consumed/qletters", "quality-letter variant covers query [%d,%d) of %d", qb0, qb1, len(q))
+			} else {
+				optimal(qsegs, qt, qsum, qa1, "/qletters")
+			}
+		} else if bad != "" {
+			add("C09", "malformed-path/qletters", "%s (pairs %v)", bad, qsegs)
+		}
 	}
 	// Format: two equal-length rows that reduce to the aligned sub-sequences
 	rows := align.Format(seqOf(k.Letters, k.R, false).(*linear.Seq), seqOf(k.Letters, k.Q, false).(*linear.Seq), ps, alphabet.Letter(k.Letters[0]))
@@ -426,6 +445,15 @@ func run(c *enum.Ctx, prop string) {
 		mats = keep
 		matrices(3, []int{-1, 0, 1}, []int{0, -1}, func(M [][]int) { mats = append(mats, M) })
 	}
+	// a family with strong matches, so that gapped local and fitted alignments are optimal
+	for _, match := range []int{2, 3} {
+		for _, mis := range []int{-1, -3} {
+			enum.Product([]int{2, 2, 2, 2}, func(ix []int) {
+				g := func(i int) int { return -ix[i] }
+				mats = append(mats, [][]int{{0, g(0), g(1)}, {g(2), match, mis}, {g(3), mis, match}})
+			})
+		}
+	}
 	opens := []int{0, -1, -2}
 	var evals, nontriv atomic.Int64
 	enum.Parallel(len(mats), func(mi int) {
@@ -502,6 +530,9 @@ func run(c *enum.Ctx, prop string) {
 		}
 		ills = append(ills,
 			Case{Aligner: al, R: "aca", Q: "ca", Letters: def, M: [][]int{{0, -1, -1}, {-1, 1}, {-1, -1, 1}}, Open: -1, Ill: "ragged-matrix"},
+			Case{Aligner: al, R: "aca", Q: "ca", Letters: def, M: [][]int{{0, -1, -1}, {-1, 1, -1}, {-1, -1}}, Open: -1, Ill: "ragged-matrix: last row short"},
+			Case{Aligner: al, R: "aca", Q: "ca", Letters: def, M: [][]int{{0, -1, -1}, {-1, 1, -1}, {-1, -1, 1, 0}}, Open: -1, Ill: "ragged-matrix: last row long"},
+			Case{Aligner: al, R: "aca", Q: "ca", Letters: def, M: [][]int{{0, -1}, {-1, 1, -1}, {-1, -1, 1}}, Open: -1, Ill: "ragged-matrix: first row short"},
 			Case{Aligner: al, R: "aca", Q: "ca", Letters: def, M: [][]int{{0, -1}, {-1, 1}}, Open: -1, Ill: "short-matrix: 2x2 for a 3-letter alphabet"},
 			Case{Aligner: al, R: "aca", Q: "ca", Letters: def, M: [][]int{{0, -1, -1, 0}, {-1, 1, -1, 0}, {-1, -1, 1, 0}}, Open: -1, Ill: "non-square-matrix: 3x4"},
 			Case{Aligner: al, R: "aca", Q: "ca", Letters: def, M: [][]int{}, Open: -1, Ill: "empty-matrix"},
